@@ -5,7 +5,7 @@ from __future__ import annotations
 import ast
 
 from ..cfg import CFG, calls_at
-from ..loader import AnalysisError, Repo, body_nodoc, dotted, norm, walk_no_nested, enclosing, strip_cast
+from ..loader import AnalysisError, Repo, body_nodoc, dotted, norm, walk_no_nested, enclosing, strip_cast, qualname
 from ..reactor_model import ReactorModel, PRUNED_EXC
 from ..report import Report
 from .c04 import effect_tag
@@ -75,6 +75,7 @@ def run(repo: Repo, rep: Report, tier: str) -> None:
     if len(get) != 1 or len(act) != 1:
         rep.fail("reactor-order", "dul.DULServiceProvider.run_reactor", f"{len(get)} event_queue.get sites, {len(act)} do_action sites", "more than one event can be dequeued / dispatched per loop iteration: the kill flag and the ARTIM test are skipped between them", mod=dul, node=rr)
     ok = len(kill) == 1 and cfg.dominates(kill[0], get[0]) and any(isinstance(s, ast.Break) for s in kill[0].ast.body)
+    check_kill_callers(repo, rep, "kill-on-idle")
     rep.check(ok, "kill-on-idle", "dul.DULServiceProvider.run_reactor", "if self._kill_thread: break before event_queue.get", "the reactor must stop before processing another event once an action asked for it", mod=dul, node=rr)
 
     # ---- reactor order ----------------------------------------------------------
@@ -363,3 +364,42 @@ def check_user_requests(repo: Repo, rep: Report) -> None:
             g = enclosing(g, (ast.If,))
         rep.check(ok, "release-only-established", "association.Association._run_reactor", enclosing(c, (ast.stmt,)), "the reactor sends an A-RELEASE response without having tested that the association is still established: after a local abort (provider in Sta13) a release request that was already pending is answered, Evt14 is undefined in Sta13 and the provider thread dies", mod=am, node=c)
     rep.floor("release responses sent by the reactor", m, 1)
+
+
+
+# who may stop the provider thread, and why that is safe (the state machine is in Sta1 there)
+KILL_CALLERS = {
+    "fsm": "the actions that return to Sta1 (checked path by path above)",
+    "acse.ACSE._negotiate_as_requestor": "after the answer to the association request was a reject / abort / anything but an accept: the action that delivered it already returned to Sta1",
+    "dul.DULServiceProvider.stop_dul": "sets the flag itself, under `current_state == 'Sta1'`",
+    "dul.DULServiceProvider.kill_dul": "the setter",
+    "dul.DULServiceProvider.run_reactor": "an exception in the reactor ends the thread",
+    "dul.DULServiceProvider.__init__": "initialisation",
+}
+
+
+def check_kill_callers(repo, rep, rule: str) -> None:
+    """The provider thread is stopped only when the state machine is idle: by the actions that return to Sta1, by
+    stop_dul() under its Sta1 test, and by the requestor's negotiation once the peer's answer put the machine back
+    in Sta1. Anyone else calling kill_dul() (or setting _kill_thread) - a wait for Sta1 that gives up after a
+    timeout, say - stops the provider with PDUs still queued to send: a release request the reactor has just
+    answered is never answered on the wire."""
+    from .c27 import pkg_modules
+
+    n = 0
+    for short, m in pkg_modules(repo):
+        if short.startswith(("apps.", "tests.", "benchmarks.")):
+            continue
+        for x in ast.walk(m.tree):
+            site = None
+            if isinstance(x, ast.Call) and isinstance(x.func, ast.Attribute) and x.func.attr == "kill_dul":
+                site = x
+            elif isinstance(x, ast.Assign) and any(isinstance(t, ast.Attribute) and t.attr == "_kill_thread" for t in x.targets):
+                site = x
+            if site is None:
+                continue
+            n += 1
+            q = f"{short}.{qualname(site)}"
+            ok = short == "fsm" or q in KILL_CALLERS
+            rep.check(ok, rule, q, enclosing(site, (ast.stmt,)) or site, f"`{norm(site)[:50]}` stops the provider thread from a place that does not know the state machine is in Sta1 (allowed: {sorted(KILL_CALLERS)}): PDUs still queued to send - the A-RELEASE-RP the reactor has just issued, an A-ABORT - are dropped with the thread, the peer gets neither", mod=m, node=site)
+    rep.floor("kill_dul() / _kill_thread sites", n, 10)
